@@ -25,9 +25,18 @@ SeqP(min, max, ps) == [k |-> "seq", min |-> min, max |-> max, ps |-> ps]
 \* farfwd: the imported file refers to ITS OWN Thing (base= and ref=) ahead of the declarations
 \* rec: the near Thing is recursive through a reference - it contains ref="t:ThingKid", a global element (declared last)
 \* whose anonymous type extends Thing; a referring type that stands first then reaches Thing while Thing is being converted
-Space == {[ptype |-> a, pref |-> b, pbase |-> d, order |-> o, locals |-> lo, bname |-> bn, farfwd |-> ff, rec |-> r] :
+\* dflt: the near file declares its own namespace as the default one and the referring types write their references to
+\*       it WITHOUT a prefix (base="Thing"): the homonym of the imported namespace must not be taken
+\* two:  a second derived type, extending the NEAR Thing, stands before the derived type under test - so the near Thing
+\*       has been looked up (and, when it is declared later, converted ahead of its declaration) before the far one is
+Space == {x \in {[ptype |-> a, pref |-> b, pbase |-> d, order |-> o, locals |-> lo, bname |-> bn, farfwd |-> ff, rec |-> r, dflt |-> df, two |-> tw] :
             a \in {"t", "o"}, b \in {"t", "o", "none"}, d \in {"t", "o", "none"},
-            o \in {"users_first", "users_last"}, lo \in {"none", "first", "last"}, bn \in BOOLEAN, ff \in BOOLEAN, r \in BOOLEAN}
+            o \in {"users_first", "users_last"}, lo \in {"none", "first", "last"}, bn \in BOOLEAN, ff \in BOOLEAN, r \in BOOLEAN,
+            df \in BOOLEAN, tw \in BOOLEAN} :
+            /\ x.dflt => (~x.bname /\ x.locals = "none")
+            /\ x.two => (x.pbase # "none" /\ ~x.rec /\ ~x.bname /\ x.locals = "none")}
+\* how a reference to the near namespace is written
+P(x, p) == IF x.dflt /\ p = "t" THEN "" ELSE p
 
 ThingType(mark) == [k |-> "complex", n |-> "Thing", base |-> None, content |-> << SeqP(1, "1", << El(mark, B("string"), 1, "1") >>) >>, attrs |-> <<>>]
 RecThing == [k |-> "complex", n |-> "Thing", base |-> None,
@@ -42,17 +51,20 @@ LocalHolder == [k |-> "complex", n |-> "LocalHolder", base |-> None,
                 attrs |-> << [k |-> "attr", n |-> "Thing", ty |-> B("int"), use |-> "opt"] >>]
 
 UserType(x) == [k |-> "complex", n |-> "UserType", base |-> None,
-                content |-> << SeqP(1, "1", << El("viaType", T(x.ptype, "Thing"), 1, "1") >>
-                                          \o (IF x.pref = "none" THEN <<>> ELSE << [k |-> "ref", ref |-> [p |-> x.pref, n |-> "Thing"], min |-> 0, max |-> "1"] >>)
+                content |-> << SeqP(1, "1", << El("viaType", T(P(x, x.ptype), "Thing"), 1, "1") >>
+                                          \o (IF x.pref = "none" THEN <<>> ELSE << [k |-> "ref", ref |-> [p |-> P(x, x.pref), n |-> "Thing"], min |-> 0, max |-> "1"] >>)
                                           \o (IF x.bname THEN << El("viaBuiltinName", T("t", "date"), 0, "1") >> ELSE <<>>)) >>,
                 attrs |-> <<>>]
-DerivedUser(x) == [k |-> "complex", n |-> "DerivedUser", base |-> T(x.pbase, "Thing"),
+DerivedNear(x) == [k |-> "complex", n |-> "DerivedNear", base |-> T(P(x, "t"), "Thing"),
+                   content |-> << SeqP(1, "1", << El("nearOwn", B("string"), 1, "1") >>) >>, attrs |-> <<>>]
+DerivedUser(x) == [k |-> "complex", n |-> "DerivedUser", base |-> T(P(x, x.pbase), "Thing"),
                    content |-> << SeqP(1, "1", << El("ownMark", B("string"), 1, "1") >>) >>, attrs |-> <<>>]
-Users(x) == <<UserType(x)>> \o (IF x.pbase = "none" THEN <<>> ELSE <<DerivedUser(x)>>)
+Users(x) == <<UserType(x)>> \o (IF x.two THEN <<DerivedNear(x)>> ELSE <<>>) \o (IF x.pbase = "none" THEN <<>> ELSE <<DerivedUser(x)>>)
 Decls(x) == <<ThingElem("t"), IF x.rec THEN RecThing ELSE ThingType("nearMark")>> \o (IF x.bname THEN <<DateType>> ELSE <<>>)
             \o (IF x.rec THEN <<ThingKid>> ELSE <<>>)
 
-File1(x) == [name |-> "f1.xsd", kind |-> "xsd", tns |-> "Unear", xmlns |-> << <<"t", "Unear">>, <<"o", "Ufar">> >>,
+File1(x) == [name |-> "f1.xsd", kind |-> "xsd", tns |-> "Unear",
+             xmlns |-> << <<"t", "Unear">>, <<"o", "Ufar">> >> \o (IF x.dflt THEN << <<"", "Unear">> >> ELSE <<>>),
              items |-> << [k |-> "import", ns |-> "Ufar", loc |-> "f2.xsd"] >>
                        \o (IF x.locals = "first" THEN <<LocalHolder>> ELSE <<>>)
                        \o (IF x.order = "users_first" THEN Users(x) \o Decls(x) ELSE Decls(x) \o Users(x))
@@ -69,7 +81,7 @@ MCSpec == MCInit /\ [][UNCHANGED c]_vars
 \* C09 at design level: every reference of the referring types is bound to the component Resolve names
 Agreement ==
   (Dev = {}) => LET S == SetOf(c) IN
-     \A t \in {t \in TypesOf(S) : t.n \in {"UserType", "DerivedUser", "FarUser"}} :
+     \A t \in {t \in TypesOf(S) : t.n \in {"UserType", "DerivedUser", "DerivedNear", "FarUser"}} :
         LET f == FileNamed(S, t.f) IN
         /\ ~Dropped(S, t, {})
         /\ FieldViol(ExpFields(S, f, t.it, t.it), BuiltFields(S, f, t.it, t.it, 8, {})) = {}
@@ -84,7 +96,8 @@ Distinguishes ==
 Emit == PrintT(<<"CASE", ToJson([prop |-> "C09", drv |-> "gen", start |-> "f1.xsd", files |-> SetOf(c).files, shape |-> c])>>)
 
 N(x, p, s) == [xml |-> x, pascal |-> p, snake |-> s]
-Vocab == [names |-> [ThingKid |-> N("ThingKid", "ThingKid", "thing_kid"), kidMark |-> N("kidMark", "KidMark", "kid_mark"),
+Vocab == [names |-> [DerivedNear |-> N("DerivedNear", "DerivedNear", "derived_near"), nearOwn |-> N("nearOwn", "NearOwn", "near_own"),
+                     ThingKid |-> N("ThingKid", "ThingKid", "thing_kid"), kidMark |-> N("kidMark", "KidMark", "kid_mark"),
                      FarUser |-> N("FarUser", "FarUser", "far_user"), Thing |-> N("Thing", "Thing", "thing"), date |-> N("date", "Date", "date"), LocalHolder |-> N("LocalHolder", "LocalHolder", "local_holder"),
                      UserType |-> N("UserType", "UserType", "user_type"), DerivedUser |-> N("DerivedUser", "DerivedUser", "derived_user"),
                      viaType |-> N("viaType", "ViaType", "via_type"), viaBuiltinName |-> N("viaBuiltinName", "ViaBuiltinName", "via_builtin_name"),
